@@ -316,7 +316,7 @@ def revisionize(rnd, sc):
             c.leaves.append(("%sr%d" % (lf[0], nleaf[0]),) + tuple(lf[1:]))
         # the same prefix bound to another module than in the other revision(s)
         others = [o for o in modules if o.name != src.name]
-        if not src.sub and others and c.imports and rnd.random() < 0.5:
+        if not src.sub and others and c.imports and rnd.random() < 0.8:
             j = rnd.randrange(len(c.imports))
             p, _n, _d = c.imports[j]
             tgt = rnd.choice(others)
